@@ -180,7 +180,7 @@ func runMixedIn(r *RunCtx, s *Script) *World {
 }
 
 func init() {
-	for _, p := range []string{"C04", "C05", "C13", "C06", "C09", "C20"} {
+	for _, p := range []string{"C04", "C05", "C13", "C06"} {
 		Arms[p] = &Arm{Gen: genMixed(p), Run: runMixed}
 	}
 }
